@@ -98,13 +98,21 @@ struct CollPath {
 
 /// The page selector of the integer-key endpoints is a 128-bit marker that
 /// straddles 2^64 (`key + KEY_OFFSET`), as an id space wider than 64 bits would.
+///
+/// `pad` makes the token as long as a token may be: the envelope
+/// `{"v":"v1","page_start":{"last":<20 digits>,"pad":"…"}}` is exactly 384 bytes
+/// of JSON, i.e. exactly 512 (= the maximum) base64 characters - every token these
+/// endpoints issue sits on the bound and must still be accepted back, beside a
+/// limit and beside other parameters.
 #[derive(Serialize, Deserialize)]
 struct SelKey {
     last: u128,
+    pad: String,
 }
 const KEY_OFFSET: u128 = (1u128 << 64) - 20;
+const PAD_LEN: usize = 384 - 31 - 20 - 8 - 3;
 fn sel_of(key: u64) -> SelKey {
-    SelKey { last: key as u128 + KEY_OFFSET }
+    SelKey { last: key as u128 + KEY_OFFSET, pad: "p".repeat(PAD_LEN) }
 }
 fn key_of(sel: &SelKey) -> u64 {
     (sel.last - KEY_OFFSET) as u64
